@@ -643,46 +643,98 @@ def derives_from(e, x, src):
 
 def small_circle_on_arc(ctx, crate):
     """N (exact mode): `intersect_small_circle` has two candidate points per case (the great circle meets the
-    parallel twice) and keeps the one lying ON the arc p1-p2: a candidate v handed back as `Some(v)` has passed
-    BOTH `p1.v >= p1.p2` and `p2.v >= p1.p2` (each end at most one arc length away).  Read as polynomial
-    identities in the components of p1, p2 and v on the comparisons that succeeded on the way to each
-    `Some`: any weaker test (one end only, the sum of the two products) accepts the mirror root beyond an end
-    of the arc, whose cell is then pushed unconditionally."""
-    from poly import to_poly, Poly
-    from rules.common import cmp_facts
+    parallel twice) and keeps the one lying ON the arc p1-p2: a candidate v is accepted only after BOTH
+    `p1.v >= p1.p2` and `p2.v >= p1.p2` (each end at most one arc length away).  Read on the ordering
+    comparisons of the function, of its closures and of the private helpers of the module it calls, as
+    polynomials in the components read through the `Vec3` accessors (every other operand is an atom): a
+    comparison is an *end test* when it has the shape  R.v - T >= 0  with R one receiver of accessors and v
+    another receiver or three atoms; every end test must be paired with one on the same v, the same T and the
+    OTHER receiver, and there must be at least one pair.  A weaker test (one end only, the sum of the two
+    products against 2 p1.p2) accepts the mirror root beyond an end of the arc, whose cell is pushed
+    unconditionally."""
+    from poly import Poly
+    from mir import f64_from_bits
+    from fractions import Fraction
     clause = "special-points"
     fns = [p_ for p_ in crate.bodies if p_.endswith("special_points_finder::intersect_small_circle")]
     if len(fns) != 1: return
     fn = fns[0]
     b = ctx.anchor(crate, fn, clause)
     if b is None: return
-    e = Engine(crate); r = e.run(fn); ctx.functions |= e.visited_fns
-    acc = {}
-    for ev in e.events.values():
-        if ev.callee and ev.callee.split("::")[-1] in ("x", "y", "z") and "Vec3" in ev.callee and ev.args and show(ev.args[0]) in ("p1", "p2") and ev.ret is not None:
-            acc[ev.ret] = show(ev.args[0]) + ev.callee.split("::")[-1]
-    news = [ev for ev in e.events.values() if ev.callee and ev.callee.endswith("UnitVect3::new_unsafe") and len(ev.site) == 2 and len(ev.args) == 3]
-    if not news or not acc:
-        ctx.not_decided("intersect_small_circle: candidates not built through UnitVect3::new_unsafe / components not read through Vec3 accessors"); return
-    V = lambda n: Poly.var(n)
-    dot12 = V("p1x") * V("p2x") + V("p1y") * V("p2y") + V("p1z") * V("p2z")
-    W = {k: V(k + "x") * V("vx") + V(k + "y") * V("vy") + V(k + "z") * V("vz") - dot12 for k in ("p1", "p2")}
-    bad = []
-    for ev in news:
-        names = dict(acc); names[ev.args[0]] = "vx"; names[ev.args[1]] = "vy"; names[ev.args[2]] = "vz"
-        have = set()
-        for op, a_, c_, pos in cmp_facts(ev.facts):
-            if op not in ('ge', 'gt', 'le', 'lt'): continue
-            pa, pc = to_poly(a_, names), to_poly(c_, names)
-            if pa is None or pc is None: continue
-            # a failed `a < c` is read as a >= c (the products of unit vectors are not NaN)
-            dpoly = pa - pc if (op in ('ge', 'gt')) == bool(pos) else pc - pa
-            for k, w in W.items():
-                if dpoly == w: have.add(k)
-        if have != {"p1", "p2"}:
-            bad.append("the candidate returned at %s was tested against %s" % (ev.at, sorted(have) if have else "neither end (no `p.v >= p1.p2` comparison succeeded on the way)"))
-    ctx.report(clause, "intersect_small_circle:candidate-within-both-ends", not bad, "%d `Some` sites, each under p1.v >= p1.p2 and p2.v >= p1.p2" % len(news) if not bad else bad[0] +
-               ": a root beyond an end of the arc can be returned as the special point", at=b.span, kind="N")
+    from mir import callee_name
+    VEC = ("dot_product", "cross_product", "new_unsafe", "normalized", "opposite")
+    bodies = [fn] + sorted(p_ for p_ in crate.bodies if p_.startswith(fn + "::{closure"))
+    for _, t in b.calls():
+        c = callee_name(t["func"])
+        if c and c.startswith("special_points_finder::") and c != fn and c in crate.bodies and c.split("::")[-1] not in VEC and c not in bodies: bodies.append(c)
+    tests = []          # (body, receiver A, candidate key, T poly, text)
+    for body in bodies:
+        e = Engine(crate); r = e.run(body); ctx.functions |= e.visited_fns
+        recv = {}; acc = {}
+        for ev in e.events.values():
+            if ev.callee and ev.callee.split("::")[-1] in ("x", "y", "z") and "Vec3" in ev.callee and ev.args and ev.ret is not None:
+                k = recv.setdefault(ev.args[0], len(recv))
+                acc[ev.ret] = ("R%d" % k, ev.callee.split("::")[-1])
+        atoms = {}
+        # the coordinates a candidate is built from are operands in their own right, however they were computed
+        for ev in e.events.values():
+            if ev.callee and ev.callee.endswith("UnitVect3::new_unsafe") and len(ev.args) == 3:
+                for a_ in ev.args:
+                    if a_ not in atoms and a_ not in acc and a_[0] != 'c': atoms[a_] = "a%d" % len(atoms)
+        def P(t):
+            if t in acc: return Poly.var("%s_%s" % acc[t])
+            if t in atoms: return Poly.var(atoms[t])
+            if t[0] == 'c' and t[1] == 'f64': return Poly.const(Fraction(f64_from_bits(t[2])))
+            if t[0] == 'op' and t[1] in ('add', 'sub', 'mul'):
+                a_, b_ = P(t[3]), P(t[4])
+                return a_ + b_ if t[1] == 'add' else (a_ - b_ if t[1] == 'sub' else a_ * b_)
+            if t[0] == 'un' and t[1] == 'neg': return -P(t[3])
+            if t not in atoms: atoms[t] = "a%d" % len(atoms)
+            return Poly.var(atoms[t])
+        cmps = set()
+        srcs = [d for d, loc in e.branches] + ([r.ret] if r.returns and r.ret is not None else [])
+        for d in srcs:
+            for x in walk(d):
+                if x[0] == 'op' and x[1] in ('ge', 'gt', 'le', 'lt') and x[2] == 'bool': cmps.add(x)
+                elif x[0] == 'phi':
+                    for o in e.phi_ops.get(x, ()):
+                        for y in walk(o):
+                            if y[0] == 'op' and y[1] in ('ge', 'gt', 'le', 'lt'): cmps.add(y)
+        for x in cmps:
+            try: D = P(x[3]) - P(x[4]) if x[1] in ('ge', 'gt') else P(x[4]) - P(x[3])
+            except RecursionError: continue
+            for sign in (1, -1):            # the comparison may be the negated form (a failed `<`)
+                DD = D if sign == 1 else -D
+                for A in {n.split("_")[0] for mono in DD.d for n, _ in mono if n.startswith("R")}:
+                    parts = {}
+                    for mono, cf in DD.d.items():
+                        if len(mono) == 2 and all(pw == 1 for _, pw in mono):
+                            (n1, _), (n2, _) = mono
+                            for u, v in ((n1, n2), (n2, n1)):
+                                if u.startswith(A + "_") and not v.startswith(A + "_"):
+                                    cls = v.split("_")[0] if v.startswith("R") else "atoms"
+                                    parts.setdefault(cls, {}).setdefault(u.split("_")[1], []).append((v, cf))
+                    for cls, part in parts.items():
+                        if set(part) != {"x", "y", "z"} or any(len(l) != 1 or l[0][1] != 1 for l in part.values()): continue
+                        vs = tuple(part[k][0][0] for k in ("x", "y", "z"))
+                        if cls != "atoms" and [v.split("_")[1] for v in vs] != ["x", "y", "z"]: continue
+                        dot = Poly()
+                        for k in ("x", "y", "z"): dot = dot + Poly.var("%s_%s" % (A, k)) * Poly.var(part[k][0][0])
+                        tests.append((body, A, vs, dot - DD, sign, show(x)[:90]))
+    # pairing: same body, same candidate, same T, same reading (sign), different receiver
+    unpaired = []; pairs = 0
+    for t1 in tests:
+        mates = [t2 for t2 in tests if t2[0] == t1[0] and t2[2] == t1[2] and t2[3] == t1[3] and t2[4] == t1[4] and t2[1] != t1[1]]
+        if mates: pairs += 1
+        else:
+            # a reading that is the mirror of a paired one (candidate and end swapped, or the negated reading) is not a test of its own
+            if any(t2[5] == t1[5] and [m for m in tests if m[0] == t2[0] and m[2] == t2[2] and m[3] == t2[3] and m[4] == t2[4] and m[1] != t2[1]] for t2 in tests if t2 is not t1): continue
+            unpaired.append(t1)
+    ok = pairs >= 2 and not unpaired
+    ctx.report(clause, "intersect_small_circle:candidate-within-both-ends", ok, "%d end tests in %d bodies, each paired with the test of the other end on the same candidate and the same bound" % (len(tests), len(bodies)) if ok else
+               ("no pair of tests `p1.v >= T` / `p2.v >= T` on one candidate in %s" % [x.split("::")[-1] for x in bodies] if not unpaired else
+                "the test %s (in %s) has no counterpart for the other end of the arc on the same candidate and bound" % (unpaired[0][5], unpaired[0][0].split("::")[-1])) +
+               ("" if ok else ": a root beyond an end of the arc can be returned as the special point"), at=b.span, kind="N")
 
 
 def quarter_pieces(ctx, crate):
@@ -706,19 +758,19 @@ def quarter_pieces(ctx, crate):
     rpo = b.rpo()
     ips = sorted([ev for ev in e.events.values() if ev.callee == IP and len(ev.site) == 2], key=lambda ev: rpo.get(ev.site[-1][1], 0))
     sqs = [ev for ev in e.events.values() if ev.callee == SQ and len(ev.site) == 2]
-    bad = []; n = 0
+    bad = []; quiet = []; n = 0
     for ev in sqs:
         vals = ev.argvals or [None] * len(ev.args)
         inter = [k for k in (0, 1) if k < len(vals) and vals[k] is not None and vals[k][0] == 'agg']
         if not inter: continue                       # (vertex, vertex): the whole edge in one quarter
-        if len(inter) == 2: bad.append("%s: both ends are intersections" % ev.at); continue
+        if len(inter) == 2: quiet.append("%s: both ends are intersections" % ev.at); continue
         pos = inter[0]
         before = [ip for ip in ips if rpo.get(ip.site[-1][1], 0) < rpo.get(ev.site[-1][1], 0)]
         nv = (before[-1].argvals or [None] * 4)[3] if before else None
-        if nv is None or nv[0] != 'agg' or len(nv[3]) < 2: bad.append("%s: normal of the meridian plane not found" % ev.at); continue
+        if nv is None or nv[0] != 'agg' or len(nv[3]) < 2: quiet.append("%s: normal of the meridian plane not found" % ev.at); continue
         fa, fb = nv[3][0], nv[3][1]
         qs = {x[3] if x[4][0] == 'c' else x[4] for t in (fa, fb) for x in walk(t) if x[0] == 'op' and x[1] == 'bitand' and (x[4] == C('u8', 1) or x[3] == C('u8', 1))}
-        if len(qs) != 1: bad.append("%s: normal not a function of one quarter index" % ev.at); continue
+        if len(qs) != 1: quiet.append("%s: normal not a function of one quarter index" % ev.at); continue
         Q = next(iter(qs))
         got = [(feval(fa, {Q: q}, e), feval(fb, {Q: q}, e)) for q in range(4)]
         want = [((q & 1), (q & 1) ^ 1) if pos == 0 else ((q & 1) ^ 1, (q & 1)) for q in range(4)]
@@ -745,8 +797,11 @@ def quarter_pieces(ctx, crate):
                 continue
         if [tuple(float(x) if x is not None else None for x in g) for g in got] != [tuple(float(x) for x in w) for w in want]:
             bad.append("%s: the intersection is the %s end of the piece but lies on the %s bound of the quarter (normal for q = 0..3: %s)" % (ev.at, "west" if pos == 0 else "east", "upper" if pos == 0 else "lower", got))
-    ctx.report(clause, "arc_special_point_in_pc:pieces-between-vertex-and-own-quarter-bound", not bad and n >= 4, "%d pieces: west end on the lower bound, east end on the upper bound of the quarter" % n if not bad and n >= 4 else
-               (bad[0] if bad else "only %d pieces found" % n), at=b.span, kind="N")
+    if not bad and (quiet or n < 4):
+        # written in another idiom (pieces searched from a helper, normals from a closure or a table): this rule
+        # reads the one the crate uses today and says nothing otherwise
+        ctx.not_decided("arc_special_point_in_pc: the pieces between a vertex and its quarter bound (%s)" % (quiet[0] if quiet else "%d pieces visible in the function itself" % n)); return
+    ctx.report(clause, "arc_special_point_in_pc:pieces-between-vertex-and-own-quarter-bound", not bad, "%d pieces: west end on the lower bound, east end on the upper bound of the quarter" % n if not bad else bad[0], at=b.span, kind="N")
 
 
 def run(ctx):
